@@ -26,6 +26,11 @@ def main : IO Unit := do
         if o.lenMesg != 1 + sizeSum fb + sizeSum db || o.lenMesgDef != pre.length + m * 3 then
           IO.println s!"DIFF Decode_devFieldSizes fields={fb} devFields={db} go=(lenMesgDef {o.lenMesgDef}, lenMesg {o.lenMesg}) model=({pre.length + m * 3}, {1 + sizeSum fb + sizeSum db}) op=-"
       | none => IO.println s!"DIFF Decode_devFieldSizes fields={fb} devFields={db} go=panic op=-"
+  for nb in [0, 1, 255] do
+    match Decode_devCount ([0x60, 0, 0, 20, 0, 0] ++ nb :: [0, 0, 0]) 6 with
+    | some o => if o.lenMesgDef != 7 || o.nDevFields != nb || o.devFieldFirstIndex != 7 then
+        IO.println s!"DIFF Decode_devCount lenMesgDef=6 count byte={nb} go=(lenMesgDef {o.lenMesgDef}, nDevFields {o.nDevFields}, first {o.devFieldFirstIndex}) model=(7, {nb}, 7) op=-"
+    | none => IO.println s!"DIFF Decode_devCount lenMesgDef=6 go=panic op=-"
   for h in List.range 256 do
     let isDef := decide (h &&& (128 ||| 64) = 64)
     if Decode_isDefinition [h] != some isDef then IO.println s!"DIFF Decode_isDefinition header={h} go={Decode_isDefinition [h]} model={isDef} op=-"
